@@ -10,10 +10,75 @@ open Draco Draco.DecM
 theorem zipWith_len (f : Int → Int → Int) (p c : List Int) (nc : Nat) (hp : p.length = nc) (hc : c.length = nc) :
     (List.zipWith f p c).length = nc := by simp [hp, hc]
 
-theorem post_symbols (k nc : Nat) : Post (decodeSymbolsM (k * nc) nc) (fun l => l.length = k * nc) := by
-  intro s a s' h
-  unfold decodeSymbolsM at h
-  exact post_lift (fun bs a rest h => decodeSymbols_length k nc bs a rest h) _ a s' h
+theorem post_symbols (k nc : Nat) : Post (lift (Leaf.decodeSymbols (k * nc) nc)) (fun l => l.length = k * nc) :=
+  post_lift (fun bs a rest h => decodeSymbols_length k nc bs a rest h)
+
+theorem post_symbolsV (legacy : Bool) (k nc : Nat) :
+    Post (lift (decodeSymbolsV legacy (k * nc) nc)) (fun l => l.length = k * nc) :=
+  post_lift (fun bs a rest h => decodeSymbolsV_length legacy k nc bs a rest h)
+
+theorem octaStep_len (dec : Int × Int → Int × Int → Int × Int) (p cr : List Int) (nc : Nat) (_hp : p.length = nc)
+    (hc : cr.length = nc) :
+    (match p, cr with
+      | [p0, p1], [c0, c1] => (match dec (p0, p1) (c0, c1) with | (a, b) => [a, b])
+      | _, _ => cr).length = nc := by
+  split
+  · simp at hc ⊢; omega
+  · exact hc
+
+theorem integerValuesTail_length (sel ne nc : Nat) :
+    Post (integerValuesTail sel ne nc) (fun vals => vals.length = ne * nc) := by
+  unfold integerValuesTail
+  apply post_bind_any; intro ver
+  apply post_bind_require; intro hnc
+  have hnc : 0 < nc := by simpa using hnc
+  extract_lets numValues jp2
+  have hnv : numValues = ne * nc := rfl
+  apply post_bind_any; intro _
+  apply post_bind_require; intro _
+  apply post_ite
+  · intro _; exact post_failWith
+  intro _
+  apply post_bind_any; intro compressed
+  have hjp2 : ∀ raw : List Nat, raw.length = ne * nc → Post (jp2 raw) (fun vals => vals.length = ne * nc) := by
+    intro raw hraw
+    simp -zeta only [jp2]
+    extract_lets vals octaDelta
+    have hv : vals.length = ne * nc := by
+      simp only [vals]; split <;> simp [hraw]
+    have hod : ∀ dec, (octaDelta dec).length = ne * nc := by
+      intro dec
+      simp only [octaDelta]
+      exact deltaDecode_length _ nc ne hnc (fun p cr hp hc => octaStep_len dec p cr nc hp hc) _ hv
+    split
+    · apply post_bind_any; intro t
+      apply post_pure
+      exact deltaDecode_length _ nc ne hnc (fun p c hp hc => zipWith_len _ p c nc hp hc) _ hv
+    · apply post_bind_any; intro c
+      exact post_pure (hod _)
+    · apply post_bind_any; intro c
+      exact post_pure (hod _)
+    · exact post_pure hv
+  apply post_ite <;> intro _
+  · exact post_bind (post_symbolsV _ ne nc) (fun raw hraw => hjp2 raw hraw)
+  · apply post_bind_any; intro numBytes
+    apply post_ite <;> intro hnb
+    · refine post_bind (post_bytes (4 * numValues)) (fun b hb => ?_)
+      apply post_bind_pure
+      exact hjp2 _ (leGroups_length 4 (ne * nc) (by omega) b (by rw [hb, hnv]; omega))
+    · apply post_bind_any; intro _
+      apply post_bind_any; intro rem
+      apply post_bind_any; intro _
+      apply post_ite <;> intro hz
+      · apply post_bind_pure
+        exact hjp2 _ (by simp [hnv])
+      · refine post_bind (post_bytes (numBytes * numValues)) (fun b hb => ?_)
+        apply post_bind_pure
+        have : 0 < numBytes := by
+          rcases Nat.eq_zero_or_pos numBytes with h | h
+          · simp [h] at hz
+          · exact h
+        exact hjp2 _ (leGroups_length numBytes (ne * nc) this b (by rw [hb, hnv]; exact Nat.mul_comm _ _))
 
 theorem decodeIntegerValues_length (kind ne nc : Nat) :
     Post (decodeIntegerValues kind ne nc) (fun vals => vals.length = ne * nc) := by
@@ -30,7 +95,7 @@ theorem decodeIntegerValues_length (kind ne nc : Nat) :
     intro sel
     simp -zeta only [jp]
     apply post_ite
-    · intro _; exact post_failWith
+    · intro _; exact integerValuesTail_length 2 ne nc
     intro _
     apply post_bind_require; intro hnc
     have hnc : 0 < nc := by simpa using hnc
@@ -279,6 +344,126 @@ theorem decodeSequentialAttributes_post (opts : DecOpts) (np : Nat) :
       rw [this]
     · exact post_fail
 
+/-- `finishSeqAttribute` on a state with complete storage yields a valid attribute -/
+theorem finishSeqAttribute_post (opts : DecOpts) (s : SeqAttState) (np : Nat) (hs : S2 np s) :
+    Post (finishSeqAttribute opts s np none) (fun a => a.valid np = true) := by
+  unfold finishSeqAttribute
+  dsimp only
+  have h5 : Generated.DT_INT32.toNat = 5 := by decide
+  obtain ⟨⟨⟨hnc, hdt1, hdt12⟩, hty, ht2, ht3⟩, hraw, hport⟩ := hs
+  have hdtl := dataTypeLength_pos _ hdt1 hdt12
+  apply post_ite <;> intro hc0
+  · apply post_pure
+    simp only [beq_iff_eq] at hc0
+    exact valid_of _ np hnc hdtl (by simp only [AttDesc.toAttribute]; rw [hraw hc0]) rfl (Nat.le_refl _)
+  have hc0' : s.decoderType ≠ 0 := by simpa using hc0
+  have hp := hport hc0'
+  apply post_ite <;> intro _
+  · apply post_pure
+    have hnc2 : 1 ≤ (if (s.decoderType == 3) = true then 2 else s.desc.numComponents) := by split <;> omega
+    refine valid_of _ np hnc2 (by simp only [h5]; decide) ?_ rfl (Nat.le_refl _)
+    simp only [h5]
+    rw [map_flatten_length (intToLE 4) 4 (intToLE_length 4), hp]
+    have : dataTypeLength 5 = 4 := by decide
+    rw [this, Nat.mul_comm 4, ← Nat.mul_assoc]
+  split
+  · rename_i h1'
+    apply post_pure
+    refine valid_of _ np hnc hdtl ?_ rfl (Nat.le_refl _)
+    simp only [AttDesc.toAttribute]
+    rw [map_flatten_length (intToLE _) _ (intToLE_length _), hp]
+    have : (s.decoderType == 3) = false := by simp [h1']
+    simp only [this, Bool.false_eq_true, if_false]
+    rw [Nat.mul_comm (dataTypeLength _), ← Nat.mul_assoc]
+  · rename_i h2'
+    split
+    · apply post_pure
+      refine valid_of _ np hnc hdtl ?_ rfl (Nat.le_refl _)
+      simp only [AttDesc.toAttribute]
+      rw [dequantAll_flatten_length, hp]
+      have : (s.decoderType == 3) = false := by simp [h2']
+      simp only [this, Bool.false_eq_true, if_false, ht2 h2']
+      have : dataTypeLength 9 = 4 := by decide
+      rw [this, Nat.mul_comm 4, ← Nat.mul_assoc]
+    · exact post_fail
+  · rename_i hn1 hn2
+    have hn1' : s.decoderType ≠ 1 := hn1
+    have hn2' : s.decoderType ≠ 2 := hn2
+    have h3' : s.decoderType = 3 := by omega
+    split
+    · apply post_pure
+      refine valid_of _ np hnc hdtl ?_ rfl (Nat.le_refl _)
+      simp only [AttDesc.toAttribute]
+      have : (s.decoderType == 3) = true := by simp [h3']
+      simp only [this, if_true] at hp
+      rw [octaAll_flatten_length _ np _ (by rw [hp]; exact Nat.mul_comm _ _)]
+      simp only [(ht3 h3').1, (ht3 h3').2]
+      have : dataTypeLength 9 = 4 := by decide
+      rw [this]
+    · exact post_fail
+
+/-- the controller of bitstreams < 2.0 -/
+theorem decodeSequentialAttributesLegacy_post (opts : DecOpts) (np : Nat) :
+    Post (decodeSequentialAttributesLegacy opts np) (fun atts => ∀ a ∈ atts, a.valid np = true) := by
+  unfold decodeSequentialAttributesLegacy
+  have h9 : Generated.DT_FLOAT32.toNat = 9 := by decide
+  refine post_bind decodeAttDescs_post (fun descs hdescs => ?_)
+  apply post_bind_any; intro _
+  refine post_bind (post_mapM' _ DescOk S1 ?_ descs hdescs) (fun st1 h1 => ?_)
+  · intro d hd
+    apply post_bind_any; intro dt
+    apply post_bind_require; intro hdt
+    have hdt : dt ≤ 3 := by simpa using hdt
+    extract_lets jpIn jpOut
+    have hIn : ∀ u, (dt = 2 → d.dataType = 9) → (dt = 3 → d.numComponents = 3 ∧ d.dataType = 9) → Post (jpIn u) S1 := by
+      intro u h2 h3
+      simp -zeta only [jpIn]
+      exact post_pure ⟨hd, hdt, h2, h3⟩
+    have hOut : ∀ u, (dt = 2 → d.dataType = 9) → Post (jpOut u) S1 := by
+      intro u h2
+      simp -zeta only [jpOut]
+      apply post_ite <;> intro hc
+      · apply post_bind_require; intro hr
+        refine hIn () h2 (fun _ => ?_)
+        simpa [h9] using hr
+      · exact hIn () h2 (fun h => by simp [h] at hc)
+    apply post_ite <;> intro hc
+    · apply post_bind_require; intro hr
+      refine hOut () (fun _ => ?_)
+      simpa [h9] using hr
+    · exact hOut () (fun h => by simp [h] at hc)
+  apply post_bind_any; intro _
+  apply post_bind_any; intro _
+  refine post_bind (post_mapM' _ S1 (S2 np) ?_ st1 h1.2) (fun st2 h2 => ?_)
+  · intro s hs
+    extract_lets stride nc
+    apply post_bind_any; intro _
+    apply post_ite <;> intro hc
+    · refine post_bind (post_bytes (np * stride)) (fun b hb => ?_)
+      apply post_pure
+      refine ⟨hs, fun _ => hb, fun h => ?_⟩
+      simp only [beq_iff_eq] at hc
+      exact (h hc).elim
+    · apply post_bind_any; intro sel
+      apply post_bind_any; intro tr
+      refine post_bind (integerValuesTail_length sel np nc) (fun vals hv => ?_)
+      apply post_bind_any; intro _
+      apply post_pure
+      refine ⟨hs, fun h => ?_, fun _ => hv⟩
+      simp only [beq_iff_eq] at hc
+      exact (hc h).elim
+  refine post_mono (post_mapM' _ (S2 np) (fun a => a.valid np = true) ?_ st2 h2.2) (fun l h => h.2)
+  intro s hs
+  exact finishSeqAttribute_post opts s np hs
+
+theorem decodeSequentialAttributesV_post (opts : DecOpts) (np : Nat) :
+    Post (decodeSequentialAttributesV opts np) (fun atts => ∀ a ∈ atts, a.valid np = true) := by
+  unfold decodeSequentialAttributesV
+  apply post_bind_any; intro ver
+  apply post_ite <;> intro _
+  · exact decodeSequentialAttributesLegacy_post opts np
+  · exact decodeSequentialAttributes_post opts np
+
 theorem decodePointAttributesSeq_post (opts : DecOpts) (np : Nat) :
     Post (decodePointAttributesSeq opts np) (fun atts => ∀ a ∈ atts, a.valid np = true) := by
   unfold decodePointAttributesSeq
@@ -286,7 +471,7 @@ theorem decodePointAttributesSeq_post (opts : DecOpts) (np : Nat) :
   apply post_ite <;> intro _
   · exact post_pure (by simp)
   · apply post_ite <;> intro _
-    · exact decodeSequentialAttributes_post opts np
+    · exact decodeSequentialAttributesV_post opts np
     · exact post_failWith
 
 /-! ### sequential connectivity -/
@@ -350,9 +535,12 @@ theorem decodeSeqConnectivity_post :
 
 /-! ### the whole decoder -/
 
-theorem decodeGeometry_post (opts : DecOpts) :
-    Post (decodeGeometry opts) (fun r => r.geometry.valid = true) := by
-  unfold decodeGeometry
+/-- the dispatcher with arbitrary body decoders for the Edgebreaker / kd-tree methods: valid whenever the
+    bodies only return valid geometries -/
+theorem decodeStreamWith_post (eb kd : DecOpts → DecM Geometry) (opts : DecOpts)
+    (heb : Post (eb opts) (fun g => g.valid = true)) (hkd : Post (kd opts) (fun g => g.valid = true)) :
+    Post (decodeStreamWith eb kd opts) (fun r => r.geometry.valid = true) := by
+  unfold decodeStreamWith
   apply post_bind_any; intro h
   apply post_bind_any; intro _
   extract_lets isMesh maxMajor maxMinor ver jpM
@@ -366,7 +554,9 @@ theorem decodeGeometry_post (opts : DecOpts) :
     intro md
     simp -zeta only [jpM]
     apply post_ite <;> intro _
-    · exact post_failWith
+    · exact post_bind heb (fun g hg => post_pure hg)
+    apply post_ite <;> intro _
+    · exact post_bind hkd (fun g hg => post_pure hg)
     apply post_ite <;> intro _
     · refine post_bind decodeSeqConnectivity_post (fun r hr => ?_)
       obtain ⟨np, faces⟩ := r
